@@ -461,6 +461,12 @@ def run_concat(spec):
     runs = []
     for r in spec["runs"]:
         data = np.array(r["data"], dtype=float)
+        if r.get("layout") == "F":
+            data = np.asfortranarray(data)
+        elif r.get("layout") == "strided":
+            big = np.full(data.shape[:-1] + (2 * data.shape[-1],), 1e30)
+            big[..., ::2] = data
+            data = big[..., ::2]
         runs.append(ts.TimeSeries(data, sampling_interval=float.fromhex(r["x"]), t0=float.fromhex(r["t0"]), time_unit=r["u"]))
     rec = {"spec": spec, "errors": []}
     try:
@@ -474,8 +480,11 @@ def run_concat(spec):
     return rec
 
 
-def zrows(rows_):
-    return llit([llit([zlit(int(v)) for v in r]) for r in rows_])
+def zrows(rows_, sp=0):
+    def z(v):
+        w = float(v) / 2.0 ** sp
+        return zlit(int(round(w))) if w == round(w) else zlit(int(round(w)) + 7777777)
+    return llit([llit([z(v) for v in r]) for r in rows_])
 
 
 def concat_case(rec):
@@ -505,9 +514,16 @@ def oracle_concat(rec):
 
 
 # ----------------------------------------------------------------------------- file reader
-def write_nifti(path, vol):
+def write_nifti(path, vol, dtype="int16", layout="C"):
     import nibabel as nib
-    img = nib.Nifti1Image(np.asarray(vol, dtype=np.int16), np.eye(4))
+    arr = np.asarray(vol, dtype={"int16": np.int16, "float32": np.float32, "float64": np.float64}[dtype])
+    if layout == "F":
+        arr = np.asfortranarray(arr)
+    elif layout == "strided":
+        big = np.zeros(arr.shape[:-1] + (2 * arr.shape[-1],), dtype=arr.dtype)
+        big[..., ::2] = arr
+        arr = big[..., ::2]
+    img = nib.Nifti1Image(arr, np.eye(4))
     nib.save(img, path)
 
 
@@ -518,16 +534,21 @@ def run_read(spec, tmp):
     rs = np.random.RandomState(spec["seed"])
     X, Y, Zd = spec["dims"]
     vols = [rs.randint(50, 2000, size=(X, Y, Zd, T)) for T in spec["lens"]]
+    sp = spec.get("scale_pow", 0)
     files = []
     for k, v in enumerate(vols):
-        p = "%s/c15_%d_%d.nii" % (tmp, spec["seed"], k)
-        write_nifti(p, v)
+        p = "%s/c15_%d_%d.nii%s" % (tmp, spec["seed"], k, ".gz" if spec.get("gz") else "")
+        # integer values times a power of two: exact in float32 / float64 on disk and after get_fdata()
+        dt_ = spec.get("dtype", "int16")
+        write_nifti(p, v * 2.0 ** sp if sp else v, "float64" if (sp and dt_ == "int16") else dt_, spec.get("vol_layout", "C"))
         files.append(p)
     tr = spec["tr"]
     if tr is None:
         TR = None
     elif tr["kind"] == "float":
         TR = float.fromhex(tr["x"])
+        if spec.get("tr_int") and TR == int(TR):
+            TR = int(TR)
     else:
         TR = ts.TimeArray(float.fromhex(tr["x"]), time_unit=tr["u"])
     coords = spec["coords"]
@@ -603,14 +624,14 @@ def read_cases(rec):
         vs = vols if not spec["single"] else vols[:1]
         if not spec["average"]:
             cl = llit([llit(["(%d, %d, %d)" % c for c in coords_list(r)]) for r in rois])
-            dat = llit([zrows(d) for d in rec["data"]])
+            dat = llit([zrows(d, spec.get("scale_pow", 0)) for d in rec["data"]])
             cases.append(Case("(CReadData %s %s %s %s)" % (vol_coq(vs[0]), llit([vol_coq(v) for v in vs[1:]]), cl, dat),
                               {"kind": "read", "spec": spec}, kl + "/data"))
         else:
             for r, d in zip(rois, rec["data"]):
                 cl = llit(["(%d, %d, %d)" % c for c in coords_list(r)])
                 cases.append(Case("(CReadAvg %s %s %s %s)" % (vol_coq(vs[0]), llit([vol_coq(v) for v in vs[1:]]), cl,
-                                                             llit([flit(v) for v in d])),
+                                                             llit([flit(v / 2.0 ** spec.get("scale_pow", 0)) for v in d])),
                                   {"kind": "read", "spec": spec}, kl + "/avg-data"))
     return cases
 
@@ -624,7 +645,7 @@ def oracle_read(rec):
         yield Fail("C15/%s/exception" % name, "%s raised %s" % (name, msg), msg, "a result")
     if "obs" not in rec:
         return
-    vols = [np.array(v, dtype=float) for v in rec["vols"]]
+    vols = [np.array(v, dtype=float) * 2.0 ** spec.get("scale_pow", 0) for v in rec["vols"]]
     if spec["single"]:
         vols = vols[:1]
     tr = spec["tr"]
@@ -662,10 +683,10 @@ def oracle_read(rec):
                 FA = nta.FilterAnalyzer(T0, lb=fl.get("lb", 0), ub=fl.get("ub"), filt_order=fl.get("filt_order", 64))
                 d = {"boxcar": lambda: FA.filtered_boxcar, "fourier": lambda: FA.filtered_fourier,
                      "fir": lambda: FA.fir, "iir": lambda: FA.iir}[fl["method"]]().data
-            if spec["normalize"] == "percent":
-                d = tsu.percent_change(d)
+            if spec["normalize"] == "percent":        # the definitions, not nitime.utils
+                d = (d / d.mean(-1)[..., None] - 1) * 100
             elif spec["normalize"] == "zscore":
-                d = tsu.zscore(d)
+                d = (d - d.mean(-1)[..., None]) / d.std(-1)[..., None]
             if spec["average"]:
                 d = np.mean(d.reshape(-1, d.shape[-1]), 0)
             per_file.append(d)
@@ -748,19 +769,23 @@ def gen_axis_spec(rng, quick, k):
     return spec
 
 
-def gen_concat_spec(rng):
+def gen_concat_spec(rng, k=0):
     x, u = gen_interval(rng)
     nruns = rng.choice([1, 2, 2, 3, 4, 5])
     nd = rng.choice([1, 2, 2])
     c = rng.randint(1, 3)
+    many = (k % 10 == 4)        # many runs
+    long_ = (k % 10 == 7)       # long runs (beyond any block size), odd / just above a power of two
+    if many:
+        nruns = rng.randint(9, 16)
     runs = []
     for _ in range(nruns):
-        n = rng.randint(1, 7)
+        n = rng.choice([1023, 1025, 2049, 1009]) if long_ else rng.randint(1, 7)
         shape = (n,) if nd == 1 else (c, n)
         data = [[rng.randint(-99, 99) for _ in range(n)] for _ in range(c)] if nd == 2 else [rng.randint(-99, 99) for _ in range(n)]
         uu = u if rng.random() < 0.8 else rng.choice(["s", "ms", "us"])
         runs.append({"x": float(x * FACT[u] / FACT[uu]).hex() if rng.random() < 0.9 else gen_interval(rng)[0].hex(), "u": uu,
-                     "t0": float(rng.randint(-50, 50)).hex(), "data": data})
+                     "t0": float(rng.randint(-50, 50)).hex(), "data": data, "layout": rng.choice(["C", "C", "F", "strided"])})
     return {"runs": runs}
 
 
@@ -773,7 +798,12 @@ def gen_read_spec(rng, k):
         flt = {"method": rng.choice(["boxcar", "fourier", "iir"]), "lb": 0, "ub": None}
     elif r == 5:
         flt = {"method": "fir", "lb": 0, "ub": None, "filt_order": 8}
-    lens = [rng.randint(3, 9) for _ in range(1 if single else rng.randint(1, 4))]
+    many = (k % 9 == 4)
+    long_ = (k % 9 == 7)
+    lens = [rng.randint(3, 9) for _ in range(1 if single else (rng.randint(7, 12) if many else rng.randint(1, 4)))]
+    if long_:
+        lens = [rng.choice([257, 513, 1025]) for _ in lens[:2]]
+        dims = [2, 2, rng.randint(1, 2)]
     if flt is not None:
         lens = [rng.randint(40, 56) for _ in lens]
     trk = rng.choice(["none", "float", "float", "time", "time"])
@@ -810,7 +840,9 @@ def gen_read_spec(rng, k):
         mm = rng.randint(1, 5)
         return [[rng.randint(0, dims[a] - 1) for _ in range(mm)] for a in range(3)]
     spec = {"dims": dims, "lens": lens, "seed": rng.randint(0, 2 ** 31 - 1), "single": single,
-            "coords": None if mode == "volume" else (roi() if mode == "roi" else [roi() for _ in range(rng.randint(1, 3))]),
+            "coords": None if mode == "volume" else (roi() if mode == "roi" else [roi() for _ in range(rng.randint(5, 9) if many else rng.randint(1, 3))]),
+            "scale_pow": rng.choice([0, 0, 0, -60, -20, 10, 40]), "dtype": rng.choice(["int16", "float32", "float64"]),
+            "gz": rng.random() < 0.25, "vol_layout": rng.choice(["C", "F", "strided"]), "tr_int": rng.random() < 0.5,
             "rois": mode == "rois", "coords_tuple": rng.random() < 0.5, "coords_float": (mode == "roi" and single and rng.random() < 0.3),
             "files_tuple": rng.random() < 0.3,
             "tr": tr, "normalize": rng.choice([None, None, "percent", "zscore"]), "average": rng.random() < 0.35,
@@ -952,7 +984,7 @@ def run(ctx):
     items = list(corpus())
     n_axis = ctx.scale(90, 900)
     items += [{"kind": "axis", "spec": gen_axis_spec(rng, ctx.quick, k)} for k in range(n_axis)]
-    items += [{"kind": "concat", "spec": gen_concat_spec(rng)} for _ in range(ctx.scale(60, 600))]
+    items += [{"kind": "concat", "spec": gen_concat_spec(rng, k)} for k in range(ctx.scale(60, 600))]
     items += [{"kind": "read", "spec": gen_read_spec(rng, k)} for k in range(ctx.scale(64, 480))]
     tmp = tempfile.mkdtemp(prefix="c15_nifti_")
     all_cases, all_fails = [], []
@@ -984,8 +1016,11 @@ def run(ctx):
         "comparisons": ndiff, "Fs_hand_overs_recorded": nfs, "output_descriptors_compared": nouts}
     ctx.extra["rule"] = ("seeded generator: inputs built with sampling_interval= / sampling_rate= in s, ms, us, non-zero t0, "
                          "1-d/2-d/3-d data, intervals from 10 ns to 2^46 ps (every 17th at or above 2^49 ps), all analyzers that accept "
-                         "the input; concatenations of 1-5 runs; generated NIfTI files (single / several files, ROI / ROI list / "
-                         "whole volume, TR none / number / time object, normalise, average, filter); non-trivial = at least one "
+                         "the input; series lengths 64-128 and (every 11th) 1009-4097 (thorough: to 16385), data scaled by 2^-60..2^40 with offsets, "
+                         "C / Fortran / strided / list data, inputs re-derived through copy() / time= / positional arguments, analyzers entered "
+                         "through set_input / input= / explicit method dicts; concatenations of 1-16 runs of 1-2049 samples; generated NIfTI files "
+                         "(int16 / float32 / float64, .nii / .nii.gz, C / Fortran / strided arrays, values scaled by powers of two; single / up to 12 "
+                         "files of up to 1025 volumes, ROI / up to 9 ROIs / whole volume, TR none / int / float / time object, normalise, average, filter); non-trivial = at least one "
                          "output descriptor (axis), more than one run (concat), every reader case")
     return ctx.finish(
         level="proof",
